@@ -51,6 +51,7 @@ vars == <<fam, variant, imp, sa, sb, phase, req, res>>
 (* ------------------------------------------------------------------ *)
 E(k, s, n, xs) == [k |-> k, s |-> s, n |-> n, xs |-> xs]
 I(n)        == E("int", "", n, <<>>)
+Str(t)      == E("str", t, 0, <<>>)          \* the string literal "t"
 Flt(n)      == E("flt", "", n, <<>>)         \* the float literal n.0 (equal to, but not the same constant as, n)
 V(x)        == E("var", x, 0, <<>>)
 K(c)        == E("cls", c, 0, <<>>)          \* reference to a class of module a
@@ -80,7 +81,9 @@ WithD(s, d)        == [s EXCEPT !.d = d]     \* decoration: "comment" (trailing 
                                              \* | "bslash" (value on a backslash continuation line)
 
 Def(kind, name, params, body, methods) ==
-  [kind |-> kind, name |-> name, params |-> params, body |-> body, methods |-> methods]
+  [kind |-> kind, name |-> name, params |-> params, body |-> body, methods |-> methods,
+   one |-> FALSE]     \* one: written on one line,  def f(x): <the single statement>
+OneLine(f) == [f EXCEPT !.one = TRUE]
 Fn(name, params, body)     == Def("func", name, params, body, <<>>)
 Static(name, params, body) == Def("static", name, params, body, <<>>)
 Class(name, methods)       == Def("class", name, <<>>, <<>>, methods)
@@ -111,7 +114,7 @@ NestedDefs(body) == {body[i] : i \in {j \in DOMAIN body : body[j].k = "def"}}
 HasLocalFn(P, name) == \E b \in Bodies(P) : \E st \in NestedDefs(b) : st.s = name
 LocalFn(P, name) ==
   LET st == CHOOSE st \in UNION {NestedDefs(b) : b \in Bodies(P)} : st.s = name
-  IN [kind |-> "func", name |-> name, params |-> st.ps, body |-> st.b, methods |-> <<>>]
+  IN [kind |-> "func", name |-> name, params |-> st.ps, body |-> st.b, methods |-> <<>>, one |-> FALSE]
 
 (* ------------------------------------------------------------------ *)
 (* Static types by naming convention of the pools (only used to tag   *)
@@ -144,6 +147,7 @@ ClsV(c)  == Val("cls", 0, c)
 FunV(f)  == Val("fun", 0, f)
 BoolV(b) == Val("bool", IF b THEN 1 ELSE 0, "")
 ErrV     == Val("err", 0, "")
+StrV(t)  == Val("str", 0, t)
 LFunV(f) == Val("lfun", 0, f)            \* a nested function, by name (names of nested functions are unique)
 
 EmptyD == [x \in {} |-> NoneV]
@@ -176,6 +180,7 @@ SetAttr(h, r, f, v) == [h EXCEPT ![r.n].d = Bind(h[r.n].d, f, v)]
 Eval(P, e, env, h, out) ==
   CASE e.k = "int"  -> R(IntV(e.n), h, out)
     [] e.k = "flt"  -> R(FloatV(e.n), h, out)
+    [] e.k = "str"  -> R(StrV(e.s), h, out)
     [] e.k = "var"  -> R(IF e.s \in DOMAIN env THEN env[e.s] ELSE ErrV, h, out)
     [] e.k = "cls"  -> R(IF HasDef(P, e.s) THEN ClsV(e.s) ELSE ErrV, h, out)
     [] e.k = "fref" -> R(IF HasDef(P, e.s) THEN FunV(e.s) ELSE ErrV, h, out)
@@ -321,6 +326,7 @@ TokE(e, c) ==
   CASE e.k = "int"  -> <<Tk(IntTok(e.n))>>
     [] e.k = "flt"  -> <<Tk(CASE e.n = 1 -> "1.0" [] e.n = 2 -> "2.0" [] e.n = 3 -> "3.0" [] OTHER -> ToString(e.n) \o ".0")>>
     [] e.k = "var"  -> <<VarTok(e.s, c)>>
+    [] e.k = "str"  -> <<Tk("\"" \o e.s \o "\"")>>
     [] e.k = "cls"  -> ModPrefixFor(c, e.s) \o <<T(e.s, <<"class", e.s>>)>>
     [] e.k = "fref" -> ModPrefixFor(c, e.s) \o <<T(e.s, <<"func", e.s>>)>>
     [] e.k = "attr" -> TokE(e.xs[1], c) \o <<Tk("."), T(e.s, <<"field", TyE(e.xs[1], c.self), e.s>>)>>
@@ -381,8 +387,10 @@ TokFunc(f, c0) ==
   LET c == [Ctx(c0.mod, c0.imp, c0.self, f.name, Range(f.params)) EXCEPT !.here = c0.here]
   IN (IF f.kind = "static" THEN <<Tk("@"), Tk("staticmethod"), Tk("NL")>> ELSE <<>>)
      \o <<Tk("def"), T(f.name, IF c0.self = "" THEN <<"func", f.name>> ELSE <<"method", c0.self, f.name>>),
-          Tk("(")>> \o TokParams(f.params, 1, c) \o <<Tk(")"), Tk(":"), Tk("NL"), Tk("IN")>>
-     \o TokBody(f.body, 1, c) \o <<Tk("DE")>>
+          Tk("(")>> \o TokParams(f.params, 1, c)
+     \o (IF f.one /\ Len(f.body) = 1 /\ f.body[1].k # "def"
+         THEN <<Tk(")"), Tk(":")>> \o TokBody(f.body, 1, c) \o <<Tk("DD")>>     \* DD: end of a one-line definition
+         ELSE <<Tk(")"), Tk(":"), Tk("NL"), Tk("IN")>> \o TokBody(f.body, 1, c) \o <<Tk("DE")>>)
 
 RECURSIVE TokMethods(_, _, _)
 TokMethods(ms, i, c) == IF i > Len(ms) THEN <<>> ELSE TokFunc(ms[i], c) \o TokMethods(ms, i + 1, c)
@@ -808,6 +816,9 @@ Variants(f) ==
                        Var(<<ClassC(<<Fn("m", <<"this", "x">>,
                                          <<Asg("t", B("*", x, A(V("this"), "f"))), Set(V("this"), "g", t),
                                            Ret(B("+", t, A(V("this"), "g")))>>)>>)>>, ""),
+                       \* the local's name also occurs, as a whole word, inside a string literal
+                       Var(<<ClassC(<<MethM(<<Asg("t", B("+", x, A(self, "f"))), Pr(<<Str("t"), t>>),
+                                             Ret(B("*", t, I(2)))>>)>>)>>, ""),
                        \* nested functions (with and without a parameter) in the method: their locals
                        \* are not method locals
                        Var(<<ClassC(<<MethM(<<DefS("h", <<"y">>, <<Asg("t", B("*", y, I(2))), Ret(B("+", t, I(1)))>>),
@@ -822,7 +833,14 @@ Variants(f) ==
                              Fn("inc", <<"x">>, <<Ret(B("+", x, I(1)))>>)>>, ""),
                        Var(<<ClassC(<<MethM(MB1)>>),
                              Fn("show", <<"x">>, <<Pr(<<x>>)>>),
-                             Fn("add3", <<"x", "y">>, <<Asg("t", B("+", x, y)), Ret(B("+", t, I(3)))>>)>>, "") >>
+                             Fn("add3", <<"x", "y">>, <<Asg("t", B("+", x, y)), Ret(B("+", t, I(3)))>>)>>, ""),
+                       \* functions written on one line; the last function is the last thing of module a
+                       \* (no client statements there: with the layout without a final newline the body
+                       \* ends where the file ends)
+                       Var(<<ClassC(<<MethM(MB1)>>),
+                             OneLine(Fn("sq", <<"x">>, <<Ret(B("*", x, x))>>)),
+                             OneLine(Fn("show", <<"x">>, <<Pr(<<x>>)>>)),
+                             Fn("inc", <<"x">>, <<Ret(B("+", x, I(1)))>>)>>, "") >>
     [] f = "mm"  -> << [defs |-> <<ClassDm, ClassCm>>, feat |-> "", bdefs |-> <<>>],       \* both classes in module a
                        [defs |-> <<ClassDm>>, feat |-> "", bdefs |-> <<ClassCm>>] >>       \* C in module b, D in a
     [] OTHER -> <<>>
@@ -910,7 +928,7 @@ Post(f) == IF f = "enc" THEN <<Pr(<<A(o, "f"), A(o, "g"), A(A(p, "h"), "f"), A(p
 
 Snips(f, idxs) == Flat([i \in DOMAIN idxs |-> PoolOf(f)[idxs[i]].ss])
 \* module a can only have clients of C when C is defined there
-ClientsInA(f, v) == ~(f = "mm" /\ Variants(f)[v].bdefs # <<>>)
+ClientsInA(f, v) == ~(f = "mm" /\ Variants(f)[v].bdefs # <<>>) /\ ~(f = "uf" /\ v = 3)
 PostM == <<Pr(<<A(o, "f"), A(A(o, "g"), "k")>>)>>
 Build(f, v, im, ia, ib) ==
   LET defs == Variants(f)[v].defs
@@ -921,6 +939,8 @@ Build(f, v, im, ia, ib) ==
                 ELSE <<Asg("d", Call(K("D"), <<I(5)>>)), Pr(<<MC(V("d"), "bump", <<I(1)>>)>>)>>,
                 <<Asg("o", NewC(4))>> \o Snips(f, ib) \o PostM, im, names)
            EXCEPT !.bdefs = Variants(f)[v].bdefs]
+     ELSE IF ~ClientsInA(f, v)
+     THEN Prog(defs, <<>>, PreB(f) \o Snips(f, ib) \o Post(f), im, names)
      ELSE Prog(defs, PreA(f) \o Snips(f, ia) \o Post(f), PreB(f) \o Snips(f, ib) \o Post(f), im, names)
 
 \* the optional features a program uses
